@@ -84,6 +84,16 @@ def do_scalars(rec, hub, U, la, rng):
             f()
         except Exception:
             pass
+    # subclasses (Parameter, StockArray, Flow) follow the same rules
+    vq = gen.values_one("dyadic", rng, sx)
+    par = fd.Parameter(dims=gen.dimset(fd, U, la), values=vq.copy(), name="par")
+    sta = fd.StockArray(dims=gen.dimset(fd, U, la[::-1]), values=np.transpose(vq).copy() if len(la) > 1 else vq.copy(), name="sta")
+    flo = fd.Flow(dims=gen.dimset(fd, U, la), values=gen.nonzero(vq, rng), name="flo", from_process=fd.Process(name="sysenv", id=0), to_process=fd.Process(name="use", id=1))
+    for f in (lambda: par + sta, lambda: sta - par, lambda: par * flo, lambda: sta / flo, lambda: flo.minimum(par), lambda: 2 - flo, lambda: -par, lambda: par ** 2):
+        try:
+            f()
+        except Exception:
+            pass
     # non-numeric operand must be rejected
     for bad in ("2", None, [1, 2]):
         try:
